@@ -27,27 +27,26 @@ theorem C20_policy_roundtrip_full_false : ¬ C20_policy_roundtrip_full := by
   rw [hback] at this
   exact hne (Option.some.inj this)
 
-/-- two documents outside the grammar, one per remaining `quirk` region, each accepted:
-    `"Effect": {"Allow": null}`, and the policy as a three-element array -/
+/-- a document outside the grammar, in the remaining `quirk` region, accepted: `"Effect": {"Allow": null}` -/
 theorem C20_policy_outside_grammar_accepted :
-    (inGrammar Ex.docEffectObjectForm = false ∧ fromJson? Ex.docEffectObjectForm = some (Ex.policy2 none)) ∧
-    (inGrammar Ex.docArrayForm = false ∧ fromJson? Ex.docArrayForm = some (Ex.policy2 (some .v2012_10_17))) := by
+    inGrammar Ex.docEffectObjectForm = false ∧ fromJson? Ex.docEffectObjectForm = some (Ex.policy2 none) := by
   decide
 
 /-- refusal of everything outside the grammar does not hold -/
 theorem C20_policy_outside_grammar_refused_full_false : ¬ C20_policy_outside_grammar_refused_full := by
   intro h
-  have h1 := h Ex.docEffectObjectForm C20_policy_outside_grammar_accepted.1.1
-  have h2 := (fromJson_ok_iff _ _).mpr C20_policy_outside_grammar_accepted.1.2
+  have h1 := h Ex.docEffectObjectForm C20_policy_outside_grammar_accepted.1
+  have h2 := (fromJson_ok_iff _ _).mpr C20_policy_outside_grammar_accepted.2
   rw [h1] at h2
   cases h2
 
 /-! ## regression facts: repaired findings
 
-F-policy-1 (`policy-conflicting-rule-members-accepted`) and F-policy-2
-(`policy-malformed-principal-dropped`): the former witnesses are outside the grammar, outside the
-remaining `quirk` regions (so `C20_policy_outside_grammar_refused_partial` speaks about them) and are
-refused. Before the repair the first two were read as `Ex.policy2 none`. -/
+F-policy-1 (`policy-conflicting-rule-members-accepted`), F-policy-2
+(`policy-malformed-principal-dropped`) and F-policy-4 (`policy-array-form-accepted`): the former
+witnesses are outside the grammar, outside the remaining `quirk` region (so
+`C20_policy_outside_grammar_refused_partial` speaks about them) and are refused. Before the repairs the
+first two were read as `Ex.policy2 none`, the array form as `Ex.policy2 (some .v2012_10_17)`. -/
 
 /-- `Action` next to `NotAction` (either order), the same block twice, `Principal` next to `NotPrincipal` -/
 theorem C20_policy_conflicting_members_refused :
@@ -59,6 +58,13 @@ theorem C20_policy_conflicting_members_refused :
 theorem C20_policy_malformed_principal_refused :
     ∀ j ∈ [Ex.docNumberPrincipal, Ex.docStringPrincipal, Ex.docNullPrincipal],
       violation true j = some .principalShape ∧ quirk j = false ∧ fromJson? j = none := by
+  decide
+
+/-- the policy as a three-element array `[version, id, statement]` (statement single or a list), and
+    arrays of two and four elements: not an object, refused -/
+theorem C20_policy_array_form_refused :
+    ∀ j ∈ [Ex.docArrayForm, Ex.docArrayFormList, Ex.docArrayFormShort, Ex.docArrayFormLong],
+      violation true j = some .arrayForm ∧ quirk j = false ∧ headMust j = false ∧ fromJson? j = none := by
   decide
 
 end S3V.C20
